@@ -70,6 +70,29 @@ def run_case(version, explicit, legacy, order_hint=0):
     return problems
 
 
+def run_repeated(announced, configured):
+    import mosaik
+    from mosaik.exceptions import ScenarioError
+    import api_sims_a
+    w = mosaik.World({"S": {"python": f"{api_sims_a.__name__}:Simulator", "api_version": configured}}, skip_greetings=True)
+    must_reject = _parse(announced) != _parse(configured)
+    out = []
+    try:
+        with warnings.catch_warnings():
+            warnings.simplefilter("ignore")
+            for _ in range(3):
+                try:
+                    w.start("S", api_version=announced, sim_type=None if _parse(announced) < [3] else "time-based")
+                    out.append("accepted")
+                except ScenarioError:
+                    out.append("rejected")
+    finally:
+        if not w.loop.is_closed():
+            w.shutdown()
+    exp = ["rejected" if must_reject else "accepted"] * 3
+    return [] if out == exp else [f"starts {out}, expected {exp}"]
+
+
 def _bump_patch(version):
     parts = version.split(".")
     if len(parts) >= 3:
@@ -94,6 +117,16 @@ def bounded_api_versions(tier, seed):
                     failures.append({"desc": f"simulator announcing api_version {version!r} ({'legacy' if legacy else 'v3'} signatures), configured "
                                              f"api_version {explicit!r}: " + "; ".join(pr),
                                      "case": {"version": version, "explicit": explicit, "legacy": legacy}})
+    # the same configured simulator started several times in one world: the configured api_version applies to every start
+    for announced, configured in (("2.1", "3.0"), ("3.0", "2.2"), ("3.0", "3.0")):
+        cases += 1
+        try:
+            pr = run_repeated(announced, configured)
+        except Exception as e:   # noqa: BLE001
+            pr = [f"unexpected {type(e).__name__}: {e}"]
+        if pr:
+            failures.append({"desc": f"simulator announcing {announced!r}, configured api_version {configured!r}, started three times: " + "; ".join(pr),
+                             "case": {"version": announced, "explicit": configured, "repeated": True}})
     # two simulator classes with the same class name but different API generations, one after the other
     for first_legacy in (False, True):
         cases += 1
